@@ -21,7 +21,7 @@ from sim.core import Chooser, HarnessError, Trace, Violation, canonical_json, h8
 
 VERIF = os.path.dirname(os.path.dirname(os.path.abspath(__file__)))
 REPLAYS = os.path.join(VERIF, "replays")
-EVIDENCE = os.path.join(VERIF, "evidence")
+EVIDENCE = os.environ.get("VERIF_EVIDENCE_DIR") or os.path.join(VERIF, "evidence")
 KNOWN = os.path.join(VERIF, "known_findings.json")
 
 WORLD_OF = {
